@@ -66,6 +66,9 @@ func registerHooks(p *Program) {
 		fr.i.es.ps.outside(args[0].(string))
 		return nil
 	}
+	h[rtPkg+".Unsupported"] = func(fr *frame, args []value) value {
+		panic(abort{AbortUnsupported, toString(args[0])})
+	}
 	h[rtPkg+".Symbolic"] = func(fr *frame, args []value) value { return true }
 	h[rtPkg+".Known"] = func(fr *frame, args []value) value {
 		if fr.i.es.ps.ActiveKnown[args[0].(string)] {
@@ -284,6 +287,45 @@ func registerHooks(p *Program) {
 		st[0] = setDoneFlag(st[0])
 		call(fr.i, fr, token.NoPos, args[1], nil)
 		return nil
+	}
+	// sync.Pool: single-goroutine behaviour without GC - Get hands back the most
+	// recently Put object, else New()
+	h["(*sync.Pool).Put"] = func(fr *frame, args []value) value {
+		es := &fr.i.es
+		if es.pools == nil {
+			es.pools = map[*value][]value{}
+		}
+		if x, ok := args[1].(iface); ok && x.t == nil {
+			return nil
+		}
+		cell := args[0].(*value)
+		if os.Getenv("VERIF_DEBUG_POOL") != "" {
+			fmt.Fprintf(os.Stderr, "POOL put %p %T\n", cell, args[1])
+		}
+		es.pools[cell] = append(es.pools[cell], args[1])
+		return nil
+	}
+	h["(*sync.Pool).Get"] = func(fr *frame, args []value) value {
+		es := &fr.i.es
+		cell := args[0].(*value)
+		fr.i.noteStub("sync.Pool: Get returns the most recently Put object (no GC, one goroutine), else New()")
+		if os.Getenv("VERIF_DEBUG_POOL") != "" {
+			fmt.Fprintf(os.Stderr, "POOL get %p n=%d\n", cell, len(es.pools[cell]))
+		}
+		if l := es.pools[cell]; len(l) > 0 {
+			x := l[len(l)-1]
+			es.pools[cell] = l[:len(l)-1]
+			return x
+		}
+		st := (*cell).(structure)
+		newFn := st[len(st)-1]
+		if newFn == nil {
+			return iface{}
+		}
+		if c, ok := newFn.(*closure); ok && c == nil {
+			return iface{}
+		}
+		return call(fr.i, fr, token.NoPos, newFn, nil)
 	}
 	h["runtime.Caller"] = func(fr *frame, args []value) value {
 		return tuple{uintptr(0), "verif", 0, false}
